@@ -577,3 +577,39 @@ Theorem backends_agree_given_redis_refines D (HD : 0 < D) (now0 : N)
 Proof.
   intros Hr h Hs. rewrite (mem_answers_like_spec D HD h now0). apply Hr, Hs.
 Qed.
+
+(* ------------------------------------------------------------------------------------------ *)
+(* CleanupExpired: one critical section; the two-phase rewrite loses writes                     *)
+(* ------------------------------------------------------------------------------------------ *)
+
+(* in the Threads model a caller's CleanupExpired is exactly one step: the whole purge, logged at that step *)
+Lemma cleanup_is_one_section D V rest seen sh :
+  tstep D V {| lo_prog := KCleanup :: rest; lo_pending := None; lo_seen := seen |} sh =
+  ({| lo_prog := rest; lo_pending := None; lo_seen := seen ++ [(KCleanup, OOk)] |},
+   {| sh_m := purge (sh_now sh) (sh_m sh); sh_now := sh_now sh; sh_log := sh_log sh ++ [(KCleanup, OOk)] |}).
+Proof. reflexivity. Qed.
+
+(* a completed write of a never-expiring value survives any CleanupExpired run concurrently with it, in every
+   schedule: consequence of linearizability, stated directly on the store for the common case *)
+Lemma purge_keeps_immortal m now k : immortal m k -> immortal (purge now m) k.
+Proof.
+  intros (it & Hk & H0). exists it. split; [|exact H0].
+  unfold purge. rewrite Hk. cbn. rewrite (immortal_not_expired now it H0). reflexivity.
+Qed.
+
+(* caller 0: Set(k,a,50ms) ... CleanupExpired ; caller 1: (after expiry) Set(k,b,0) ; Get(k).
+   schedule: 0 0 | 0 = sweep phase 1 | 1 = Set lands between the phases | 0 = phase 2 deletes k | 1 = Get -> not found *)
+Definition sweep_progs : list (list op) :=
+  [[KSet kA (VS sa) 50; KTick 100; KCleanup]; [KSet kA (VS sb) 0; KGet kA]].
+Definition sweep_sched : list nat := [0; 0; 0; 1; 0; 1]%nat.
+
+Lemma two_phase_cleanup_refuted :
+  ~ legal DAY 1000
+      (sh_log (fst (run shared local2 (tstep_two_phase_cleanup DAY repaired) (init2 1000 sweep_progs) sweep_sched))).
+Proof. unfold legal. vm_compute. intros H. discriminate H. Qed.
+
+(* the same programs and schedule on the real (one-section) CleanupExpired: the write survives *)
+Lemma one_section_cleanup_same_schedule :
+  map snd (sh_log (fst (run shared local (tstep DAY repaired) (init 1000 sweep_progs) sweep_sched)))
+  = [OOk; OOk; OOk; OOk; OVal (VS sb)].
+Proof. vm_compute. reflexivity. Qed.
